@@ -417,7 +417,9 @@ impl BodyPlan {
     /// caller re-derives segmentation and script from the new wire.
     pub fn relax_line_endings(&mut self) {
         assert!(self.framing == Framing::Chunked);
-        let specs: Vec<ChunkSpec> = self.chunk_specs.iter().enumerate().map(|(i, c)| ChunkSpec { eol_data: b"\n", eol_size: if i % 2 == 1 { b"\n" } else { c.eol_size }, ..c.clone() }).collect();
+        // (every third chunk keeps CRLF after its data, so that all four combinations of the two line endings of
+        // a chunk occur)
+        let specs: Vec<ChunkSpec> = self.chunk_specs.iter().enumerate().map(|(i, c)| ChunkSpec { eol_data: if i % 3 == 1 { b"\r\n" } else { b"\n" }, eol_size: if i % 2 == 1 { b"\n" } else { c.eol_size }, ..c.clone() }).collect();
         let garbage: Vec<u8> = self.wire.bytes[self.wire.frame_end..].to_vec();
         let mut wire = Wire::default();
         wire.bytes = self.wire.bytes[..self.wire.head_len].to_vec();
